@@ -70,4 +70,5 @@ package otp
 //@   property C12 C17
 //@   option summary callers use this contract, not the body
 //@   option trusted body not verified (hex formatting of 16 random bytes via fmt %x and a base64 Encode into a byte buffer)
+//@   option bounded otp_generate 2000 calls
 //@   ensures hash_of_otp: result.2 == nil ==> result.1 == b64std(sha512(result.0))
